@@ -89,11 +89,20 @@ def cases(tier, seed):
                 idx += 1
                 out.append({"k": k, "rgs": rgs, "prio": pl, "pat": "none", "pat_args": [], "n": None, "tied": False,
                             "inherit": inh, "real": idx % 4 == 0, "op": ["remove", "link", "softlink", "move"][idx % 4]})
+    # a large group: sort routines behave differently beyond a few dozen elements (stability of ties)
+    big_paths = ["r1/x%02d/%sf" % (i, "deep/" if i % 3 else "") for i in range(40)]
+    for pl in (["most-nested"], ["least-nested"], ["least-nested", "top"], ["bottom", "most-nested"], ["top"], []):
+        for n in (None, ("-n", 1), ("-n", 3), ("-n", 17)):
+            idx += 1
+            out.append({"k": 40, "rgs": list(range(40)), "prio": pl, "pat": "none", "pat_args": [], "n": n, "tied": True,
+                        "inherit": None, "real": False, "op": ["remove", "link", "softlink", "move"][idx % 4],
+                        "paths": big_paths})
     return out
 
 
 def build(sc, case):
     k, rgs = case["k"], case["rgs"]
+    PATHS = case.get("paths") or globals()["PATHS"]
     blocks = sorted(set(rgs))
     # rank permutations for btime / mtime / atime / ctime so that they differ from path order and from each other
     m = len(blocks)
